@@ -135,7 +135,8 @@ def bits_axis(pat, names):
         fs.append(INL if c == "0" else INR if c == "1" else ("Phys", names[c]))
     return X.a_product(fs)
 
-def fam_bits(rng, name, d, rows, cols, bpat, mcols, start=1):
+def fam_bits(rng, name, d, rows, cols, bpat, mcols, start=1, share=False):
+    """share: the letters of bpat name the SAME physical axes as in rows / cols (b is not disjoint from a)"""
     letters = []
     for p in (rows, cols):
         for c in p:
@@ -145,8 +146,14 @@ def fam_bits(rng, name, d, rows, cols, bpat, mcols, start=1):
     bl = []
     for c in bpat:
         if c not in "01" and c not in bl: bl.append(c)
-    bnames = {c: (nxt + i, 2) for i, c in enumerate(bl)}
-    nxt += len(bl)
+    if share:
+        bnames = {}
+        for c in bl:
+            if c in names: bnames[c] = names[c]
+            else: bnames[c] = (nxt, 2); nxt += 1
+    else:
+        bnames = {c: (nxt + i, 2) for i, c in enumerate(bl)}
+        nxt += len(bl)
     avs = [bits_axis(rows, names), bits_axis(cols, names)]
     bvs = [bits_axis(bpat, bnames)]
     if mcols: bvs.append(("Phys", (nxt, mcols)))
@@ -191,6 +198,17 @@ def gen_case(rng, name, fam, uid0=1):
             i = rng.randrange(d); bpat = bpat[:i] + "Y" + bpat[i + 1:]
         avs, bvs = fam_bits(rng, name, d, rows, cols, bpat, rng.choice([0, 0, 0, 2]))
         return "bits-" + kind, mk_tensor(rng, name, avs, style), mk_tensor(rng, name, bvs, "small")
+    if fam == "bits-shared":      # b shares physical axes with a: PatternedTensor.solve must freshen b first
+        d = rng.choice([2, 3])
+        V = "ABC"[:d]
+        rows = "".join(rng.sample(V, d)); cols = "".join(rng.sample(V, d))
+        if rng.random() < 0.4:
+            i = rng.randrange(d); rows = rows[:i] + rng.choice("01") + rows[i + 1:]
+        bl = [rng.choice(V + "01") for _ in range(d)]
+        if not any(c in V for c in bl): bl[rng.randrange(d)] = rng.choice(V)
+        if not any(c in "01" for c in bl): bl[rng.randrange(d)] = rng.choice("01")
+        avs, bvs = fam_bits(rng, name, d, rows, cols, "".join(bl), rng.choice([0, 0, 2]), share=True)
+        return "bits-shared", mk_tensor(rng, name, avs, style), mk_tensor(rng, name, bvs, "small")
     if fam == "bits-random":
         d = rng.choice([2, 3])
         pool = "01AB" + ("C" if d == 3 else "")
@@ -254,13 +272,14 @@ def gen_case(rng, name, fam, uid0=1):
     return cls, a, b
 
 FAMILIES = ["typed"] * 6 + ["shared", "default", "shift", "shift", "shift", "bits-random", "bits-random",
-                            "f25", "f25", "diag", "sum", "sum", "zero"]
+                            "bits-shared", "bits-shared", "f25", "f25", "diag", "sum", "sum", "zero"]
 
 def psolve_cases(rng, tier, semirings):
     per = 34 if tier == "quick" else 400
     cases = []
     for name in semirings:
-        fams = ["f25-regression", "shift", "f25", "diag", "sum", "zero", "default", "shared"] + [rng.choice(FAMILIES) for _ in range(per - 8)]
+        fams = ["f25-regression", "shift", "f25", "diag", "sum", "zero", "default", "shared", "bits-shared", "bits-shared"] \
+               + [rng.choice(FAMILIES) for _ in range(per - 10)]
         for fam in fams:
             cls, a, b = gen_case(rng, name, fam)
             vec = len(b["vaxes"]) == 1
